@@ -24,6 +24,7 @@ type Step struct {
 	PreAlive   bool   `json:"preAlive,omitempty"`
 	PreKeyed   bool   `json:"preKeyed,omitempty"`
 	PreAuthed  bool   `json:"preAuthed,omitempty"`
+	PreMinted  bool   `json:"preMinted,omitempty"` // the target was imported / minted, not negotiated
 	WasDead    bool   `json:"wasDead,omitempty"`
 	Res        string `json:"res,omitempty"`
 	Reply      string `json:"reply,omitempty"`
@@ -148,6 +149,7 @@ type Diff struct {
 	Detail string            // expected vs observed
 	Sig    map[string]string // stable abstract signature
 	StepNo int
+	minted bool // the session concerned was imported / minted (C06)
 }
 
 func (d *Diff) Error() string {
